@@ -46,8 +46,11 @@ def main():
     mode = sys.argv[1]
     n = int(sys.argv[2]) if len(sys.argv) > 2 else 6
     jobs = seeds() if mode == 'seeds' else refactorings()
+    only = sys.argv[3:]  # optional: property ids; only items whose checks include one of them are run, and the result file is left alone
+    if only:
+        jobs = [j for j in jobs if set(j[2]) & set(only)]
     bad = 0
-    last = open('/verif/tools/scratchall.%s.last' % mode, 'w')
+    last = open('/verif/tools/scratchall.%s.last' % mode, 'w') if not only else open('/dev/null', 'w')
     with ThreadPoolExecutor(max_workers=n) as ex:
         for (name, patch, props), out in zip(jobs, ex.map(lambda j: run(j[1], j[2]), jobs)):
             tiers = re.findall(r'^(C\d\d) tier=\S+ .*violations=(\d+)', out, re.M)
